@@ -1,6 +1,7 @@
 package main
 
 import (
+	"runtime"
 	"bytes"
 	"context"
 	"fmt"
@@ -239,7 +240,18 @@ var raceSolvers = append(append([]solverSpec{}, solvers...),
 	}},
 )
 
+// solverSlots bounds the number of solver processes running at any time to the number of
+// cores, so that a solver's time limit means the same under load as in isolation (the stage-2
+// race would otherwise start several processes per obligation and starve them all).
+var solverSlots = make(chan struct{}, runtime.NumCPU())
+
 func runSolver(ctx context.Context, sp solverSpec, file string, timeoutMs int) (string, float64, string) {
+	select {
+	case solverSlots <- struct{}{}:
+	case <-ctx.Done():
+		return "timeout", 0, "cancelled before start"
+	}
+	defer func() { <-solverSlots }()
 	args := sp.args(file, timeoutMs)
 	t0 := time.Now()
 	cctx, cancel := context.WithTimeout(ctx, time.Duration(timeoutMs+2000)*time.Millisecond)
